@@ -122,6 +122,29 @@ def problem_text(pr):
     return "\n".join(" ".join(l.split()) for l in L) + "\n"
 
 
+def parse_problem_text(text):
+    """inverse of problem_text (replay)"""
+    probs, cur = [], None
+
+    def val(t):
+        return None if t in ("inf", "-inf") else F(Decimal(t))
+    for l in text.splitlines():
+        t = l.split()
+        if not t:
+            continue
+        if t[0] == "prob":
+            cur = {"name": t[1], "n": int(t[2]), "p": int(t[3]), "m": int(t[4])}
+        elif t[0] in ("P", "A", "G"):
+            n = cur["n"]
+            v = [val(x) for x in t[1:]]
+            cur[t[0]] = [v[i * n:(i + 1) * n] for i in range(len(v) // n if n else 0)]
+        elif t[0] in ("c", "b", "h", "lb", "ub"):
+            cur[t[0]] = [val(x) for x in t[1:]]
+        elif t[0] == "end":
+            probs.append(cur)
+    return probs
+
+
 def gen_problems(chk, rng):
     probs = []
     sizes = [2, 3, 4, 5, 6, 8, 10, 12, 14, 16, 18, 20]
@@ -264,6 +287,19 @@ def run(replay=None):
     chk.cov["multiprecision_type"] = ("boost::multiprecision::number<cpp_bin_float<100>, et_off> (100 decimal digits, binary radix)"
                                       if have_mp else "none available (boost::multiprecision not installed): T limited to float, double, long double")
     configs = all_configs(have_mp) if chk.thorough() else quick_configs(have_mp, chk.seed)
+    replay_probs = None
+    if replay:
+        # re-run the instantiation (and the problem, if the replay carries one) named in the replay file
+        txt = open(replay).read()
+        m = re.search(r"^signature=\S*?T=(\w+):I=(\w+):be=(\w+):pre=(\w+)", txt, re.M)
+        if m:
+            inv = lambda d, v: next(k for k, x in d.items() if x.replace(" ", "_") == v)
+            cfg = (inv(T_SIG, m.group(1)), inv(I_NAME, m.group(2)), inv(BE_NAME, m.group(3)), inv(PRE_NAME, m.group(4)))
+            configs = [REF] + ([cfg] if cfg != REF else [])
+        mm = re.search(r"^input:\n(prob .*?\nend)$", txt, re.S | re.M)
+        if mm:
+            replay_probs = parse_problem_text(mm.group(1))
+        chk.log(f"replay {replay}: configurations {[cfg_sig(c) for c in configs]}, {len(replay_probs or [])} problem(s) from the file")
     src = [os.path.join(HARNESS, "hinst.cpp")]
 
     def build(cfg):
@@ -287,7 +323,7 @@ def run(replay=None):
     chk.cov["instantiations_compiled"] = len(exes)
     chk.cov["instantiations_failed_to_compile"] = [cfg_sig(c) for c in compile_fail]
 
-    probs = gen_problems(chk, rng)
+    probs = replay_probs or gen_problems(chk, rng)
     text = "".join(problem_text(pr) for pr in probs)
     pbyname = {pr["name"]: pr for pr in probs}
 
